@@ -59,8 +59,9 @@ _EXPIRED_OBJECT = _ExpiredObject()
 
 
 class _EvaluatorCompiler:
-    def __init__(self, target_cls=None):
+    def __init__(self, target_cls=None, params=None):
         self.target_cls = target_cls
+        self.params = params if isinstance(params, dict) else None
 
     def process(self, clause, *clauses):
         if clauses:
@@ -431,7 +432,10 @@ class _EvaluatorCompiler:
         )
 
     def visit_bindparam(self, clause):
-        if clause.callable:
+        if self.params is not None and clause.key in self.params:
+            # value given to Session.execute() for an explicit bindparam()
+            val = self.params[clause.key]
+        elif clause.callable:
             val = clause.callable()
         else:
             val = clause.value
